@@ -4,7 +4,11 @@
 // a cost in "deviations"; all executions whose total cost is within the bound are enumerated, each exactly once.
 package explore
 
-import "fmt"
+import (
+	"fmt"
+	"sort"
+	"strings"
+)
 
 type Point struct {
 	Kind   string
@@ -12,13 +16,61 @@ type Point struct {
 	Chosen int
 	Costs  []int // cost of each alternative (Costs[0] == 0)
 	Label  string
+	KSeen  int // number of keyed points passed before this point (time order between the two kinds of point)
 }
+
+// KeyedPoint is a choice point identified by a stable key (e.g. the k-th occurrence of an API call signature) rather
+// than by its position in the execution: positions of calls may shift with nondeterminism the harness does not own
+// (Go map iteration), the key does not.
+type KeyedPoint struct {
+	Key    string
+	N      int
+	Chosen int
+	Pos    int // number of positional points passed before this point
+}
+
+// Diverged is the panic value raised when a positional prefix cannot be replayed.
+type Diverged struct{ Msg string }
+
+func (d Diverged) Error() string { return d.Msg }
 
 type Run struct {
 	prefix []int
 	kinds  []string
+	plan   map[string]int // keyed deviations: key -> alternative
+	occ    map[string]int
 	Trace  []Point
+	Keyed  []KeyedPoint
 	Used   int // deviations used so far
+	// Replica: this is the root execution of an exploration split over several shard processes, repeated by a shard
+	// other than the first (needed to learn the first-level alternatives; not to be counted twice)
+	Replica bool
+}
+
+// ChooseKeyed is Choose for a point identified by sig and its occurrence number within this execution. The default
+// (0) is taken unless the run's plan names this key. Every alternative costs one deviation.
+func (r *Run) ChooseKeyed(sig string, n int) int {
+	if r.occ == nil {
+		r.occ = map[string]int{}
+	}
+	r.occ[sig]++
+	key := fmt.Sprintf("%s#%d", sig, r.occ[sig])
+	c := 0
+	if a, ok := r.plan[key]; ok && a < n {
+		c = a
+		r.Used++
+	}
+	r.Keyed = append(r.Keyed, KeyedPoint{Key: key, N: n, Chosen: c, Pos: len(r.Trace)})
+	return c
+}
+
+// Plan returns the keyed deviations this run was asked to take.
+func (r *Run) Plan() map[string]int {
+	out := map[string]int{}
+	for k, v := range r.plan {
+		out[k] = v
+	}
+	return out
 }
 
 // Choose returns the alternative to take at this point. n >= 1. cost(alt) is the deviation cost of alternative alt>0.
@@ -31,7 +83,7 @@ func (r *Run) Choose(kind string, n int, cost func(alt int) int) int {
 	if i < len(r.prefix) {
 		c = r.prefix[i]
 		if c >= n || (i < len(r.kinds) && r.kinds[i] != kind) {
-			panic(fmt.Sprintf("explore: replay diverged at point %d: want kind %q choice %d, got kind %q with %d alternatives (nondeterminism the harness does not own)", i, kindAt(r.kinds, i), c, kind, n))
+			panic(Diverged{fmt.Sprintf("explore: replay diverged at point %d: want kind %q choice %d, got kind %q with %d alternatives (nondeterminism the harness does not own)", i, kindAt(r.kinds, i), c, kind, n)})
 		}
 	}
 	costs := make([]int, n)
@@ -43,7 +95,7 @@ func (r *Run) Choose(kind string, n int, cost func(alt int) int) int {
 		}
 	}
 	r.Used += costs[c]
-	r.Trace = append(r.Trace, Point{Kind: kind, N: n, Chosen: c, Costs: costs})
+	r.Trace = append(r.Trace, Point{Kind: kind, N: n, Chosen: c, Costs: costs, KSeen: len(r.Keyed)})
 	return c
 }
 
@@ -65,43 +117,131 @@ func (r *Run) Choices() []int {
 // Replay builds a Run that follows the given choices and then defaults.
 func Replay(choices []int) *Run { return &Run{prefix: choices} }
 
+// ReplayPlan is Replay with keyed deviations.
+func ReplayPlan(choices []int, plan map[string]int) *Run { return &Run{prefix: choices, plan: plan} }
+
 type Explorer struct {
 	Bound    int
 	MaxExecs int // 0 = unlimited
 	Exec     func(r *Run)
 	Stop     func() bool // optional early stop (deadline)
 
+	// Shard/NShards: when NShards > 1 only the first-level subtrees numbered Shard modulo NShards are explored (the
+	// root execution is run by every shard, flagged Replica except in shard 0).
+	Shard, NShards int
+
 	Execs  int
 	Capped bool
 	Points int
+	level1 int
+	// Diverged counts prefixes without keyed deviations that could not be replayed (nondeterminism the harness does
+	// not own; their subtrees are not explored); OnDiverged is told. Invalid counts (prefix, plan) combinations in
+	// which a keyed deviation fired before the end of the positional prefix and changed the menus the prefix was
+	// recorded against: such a combination is not a real execution plan (the same deviations taken in time order are
+	// reached through another route, see explore()), so skipping it loses nothing.
+	Diverged   int
+	Invalid    int
+	OnDiverged func(msg string)
+
+	seen map[string]bool
 }
 
 // Explore enumerates all executions within the bound (depth-first). Returns the number of executions.
 func (e *Explorer) Explore() int {
-	e.explore(nil, nil)
+	e.seen = map[string]bool{}
+	e.explore(nil, nil, nil)
 	return e.Execs
 }
 
-func (e *Explorer) explore(prefix []int, kinds []string) {
+func planKey(prefix []int, plan map[string]int) string {
+	n := len(prefix)
+	for n > 0 && prefix[n-1] == 0 {
+		n--
+	}
+	var b strings.Builder
+	fmt.Fprint(&b, prefix[:n])
+	keys := make([]string, 0, len(plan))
+	for k := range plan {
+		keys = append(keys, k)
+	}
+	sort.Strings(keys)
+	for _, k := range keys {
+		fmt.Fprintf(&b, "|%s=%d", k, plan[k])
+	}
+	return b.String()
+}
+
+func (e *Explorer) run(r *Run) (ok bool) {
+	defer func() {
+		if p := recover(); p != nil {
+			d, isDiv := p.(Diverged)
+			if !isDiv {
+				panic(p)
+			}
+			if len(r.plan) > 0 {
+				e.Invalid++
+			} else {
+				e.Diverged++
+				if e.OnDiverged != nil {
+					e.OnDiverged(d.Msg)
+				}
+			}
+			ok = false
+		}
+	}()
+	e.Exec(r)
+	return true
+}
+
+func (e *Explorer) explore(prefix []int, kinds []string, plan map[string]int) {
 	if e.Capped {
 		return
+	}
+	if len(plan) > 0 { // keyed deviations can be added in any order: visit each (prefix, plan) once
+		k := planKey(prefix, plan)
+		if e.seen[k] {
+			return
+		}
+		e.seen[k] = true
 	}
 	if (e.MaxExecs > 0 && e.Execs >= e.MaxExecs) || (e.Stop != nil && e.Stop()) {
 		e.Capped = true
 		return
 	}
-	r := &Run{prefix: prefix, kinds: kinds}
-	e.Exec(r)
-	e.Execs++
-	e.Points += len(r.Trace)
+	root := prefix == nil && len(plan) == 0
+	r := &Run{prefix: prefix, kinds: kinds, plan: plan, Replica: root && e.NShards > 1 && e.Shard != 0}
+	if !e.run(r) {
+		return
+	}
+	if !r.Replica {
+		e.Execs++
+		e.Points += len(r.Trace) + len(r.Keyed)
+	}
+	mine := func() bool { // first-level subtrees are dealt round-robin over the shards
+		if !root || e.NShards <= 1 {
+			return true
+		}
+		e.level1++
+		return (e.level1-1)%e.NShards == e.Shard
+	}
 	ks := make([]string, len(r.Trace))
 	for i, p := range r.Trace {
 		ks[i] = p.Kind
 	}
-	used := 0
+	// Deviations are added in TIME ORDER (each real execution within the bound is then reached by exactly one route:
+	// its deviations sorted by the time they occur; the intermediate executions agree with it up to the next
+	// deviation, so that deviation is observable there). lastFired = index of the last keyed deviation that fired.
+	lastFired := -1
+	for j, kp := range r.Keyed {
+		if kp.Chosen > 0 {
+			lastFired = j
+		}
+	}
+	base := len(plan) // every planned keyed deviation counts against the bound
+	used := base
 	for i := 0; i < len(r.Trace); i++ {
 		p := r.Trace[i]
-		if i >= len(prefix) {
+		if i >= len(prefix) && p.KSeen > lastFired {
 			for alt := 1; alt < p.N; alt++ {
 				if used+p.Costs[alt] > e.Bound {
 					continue
@@ -111,9 +251,36 @@ func (e *Explorer) explore(prefix []int, kinds []string) {
 					np[j] = r.Trace[j].Chosen
 				}
 				np[i] = alt
-				e.explore(np, ks[:i+1])
+				if mine() {
+					e.explore(np, ks[:i+1], plan)
+				}
 			}
 		}
 		used += p.Costs[p.Chosen]
+	}
+	// keyed alternatives: same positional prefix, one more keyed deviation, later in time than every deviation so far
+	posUsed := 0
+	for i := 0; i < len(prefix) && i < len(r.Trace); i++ {
+		posUsed += r.Trace[i].Costs[r.Trace[i].Chosen]
+	}
+	if base+posUsed+1 <= e.Bound {
+		for j, kp := range r.Keyed {
+			if j <= lastFired || kp.Pos < len(prefix) {
+				continue
+			}
+			if _, planned := plan[kp.Key]; planned {
+				continue
+			}
+			for alt := 1; alt < kp.N; alt++ {
+				np := make(map[string]int, len(plan)+1)
+				for k, v := range plan {
+					np[k] = v
+				}
+				np[kp.Key] = alt
+				if mine() {
+					e.explore(prefix, kinds, np)
+				}
+			}
+		}
 	}
 }
